@@ -110,6 +110,53 @@ def skeleton(p):
     return "%d%d" % (p.pPr is not None, p.endParaRPr is not None) + ",".join([""] + items)
 
 
+def chart_text_frames(ctx):
+    """the text frames of a chart (title, axis title) are text frames like any other: assigned text is the text read back,
+    also when the title was looked at, switched off and on again before the assignment, and after save + re-open"""
+    import io
+
+    from pptx import Presentation
+    from pptx.chart.data import CategoryChartData
+    from pptx.enum.chart import XL_CHART_TYPE
+
+    rng = ctx.rng
+    patterns = [[], ["look", "off", "on"], ["look", "off"], ["text", "off", "on"], ["look", "look"], ["off"], ["on", "look", "text"]]
+    fixed = [(w_, h_) for w_ in ("chart title", "value-axis title", "category-axis title") for h_ in patterns]
+    for trial in range(len(fixed) + (6 if ctx.quick else 120)):
+        prs = Presentation(); slide = prs.slides.add_slide(prs.slide_layouts[6])
+        cd = CategoryChartData(); cd.categories = ["a", "b"]; cd.add_series("s", [1, 2])
+        chart = slide.shapes.add_chart(XL_CHART_TYPE.COLUMN_CLUSTERED, 0, 0, 100, 100, cd).chart
+        s = gen_str(rng)
+        which = fixed[trial][0] if trial < len(fixed) else rng.choice(["chart title", "value-axis title", "category-axis title"])
+        owner = chart if which == "chart title" else (chart.value_axis if which.startswith("value") else chart.category_axis)
+        title_of = (lambda: owner.chart_title) if which == "chart title" else (lambda: owner.axis_title)
+        hist = []
+        for k in (fixed[trial][1] if trial < len(fixed) else [rng.choice(["look", "off", "on", "text"]) for _ in range(rng.randint(0, 4))]):
+            hist.append(k)
+            if k == "look":
+                title_of().text_frame
+            elif k == "off":
+                owner.has_title = False
+            elif k == "on":
+                owner.has_title = True
+            else:
+                title_of().text_frame.text = "earlier"
+        title_of().text_frame.text = s
+        case = {"level": which, "string": s, "history": hist}
+        ctx.case(key=("chart-text", which, s, tuple(hist)))
+        want = expected("frame", s)
+        got = title_of().text_frame.text
+        if got != want:
+            ctx.fail("chart-text:read-back", f"{which} after {hist}: assigned {s!r}, reads {got!r}, documented {want!r}", case)
+            continue
+        b = io.BytesIO(); prs.save(b)
+        ch2 = [sh for sh in Presentation(io.BytesIO(b.getvalue())).slides[0].shapes if getattr(sh, "has_chart", False)][0].chart
+        o2 = ch2 if which == "chart title" else (ch2.value_axis if which.startswith("value") else ch2.category_axis)
+        got2 = (o2.chart_title if which == "chart title" else o2.axis_title).text_frame.text if o2.has_title else None
+        if got2 != want:
+            ctx.fail("chart-text:reopen", f"{which} after {hist}: assigned {s!r}; after save + re-open it reads {got2!r}", case)
+
+
 class Case:
     pass
 
@@ -119,6 +166,7 @@ def correspond(ctx):
     from pptx import Presentation
     from pptx.enum.shapes import MSO_SHAPE
 
+    chart_text_frames(ctx)
     rng = ctx.rng
     n_total = 9000 if ctx.quick else 90000
     per_deck = 300
